@@ -82,7 +82,11 @@ Variable pyg_accepts : str -> bool.     (* the loaded PYGMain(...).isrequestform
 Definition msg_args_ok (flag args : str) : bool :=
   prefixb flag args &&
   (let d := skipn (List.length flag) args in
-   match d with [] => false | _ => forallb is_ascii_digit d && negb (forallb (fun c => c =? 48) d) end).
+   match d with
+   | [] => false
+   | _ => forallb is_ascii_digit d && negb (forallb (fun c => c =? 48) d)
+          && (N.of_nat (List.length d) <=? 4300)     (* int() refuses longer digit strings: treated as no such message *)
+   end).
 Definition MBOXFLAG : str := lit "/MBOX-MESSAGE/".
 Definition MAILDIRFLAG : str := lit "/MAILDIR-MESSAGE/".
 
